@@ -3,6 +3,7 @@ package c05
 import (
 	"bytes"
 	"fmt"
+	"syscall"
 	"testing"
 	"testing/synctest"
 
@@ -141,8 +142,31 @@ func run(t *testing.T, r *rep.Report, c cfg, lens []int) {
 			pa, pb, pa2 := w.P[nA], w.P[nB], w.P[nA2]
 			// the permission was installed naming A's port; A2 shares the IP and is therefore permitted too,
 			// and must be attributed with its own port
-			lens = append(append([]int{}, lens...), -1) // -1: final small probe, delivery mandatory
+			lens = append(append([]int{}, lens...), -2, -1) // -2: one transient write error in each direction; -1: final small probe, delivery mandatory
 			for _, l := range lens {
+				if l == -2 {
+					// A single failed write (ENOBUFS: the kernel's queue was full for a moment) loses that one
+					// datagram and nothing else: one write of the server's socket toward the client fails (UDP
+					// transport; a failed stream write means a broken connection) and one write of the relay
+					// socket toward a peer. The datagrams concerned are excused; the final probe that follows is not.
+					if rs := w.Net.UDPAt(relay.String()); rs != nil {
+						rs.WriteErr, rs.WriteErrOnce = syscall.ENOBUFS, true
+						c1.Send(wire.ChannelData(0x4000, []byte("lost-to-a-transient-write-error"), c.stream))
+						synctest.Wait()
+					}
+					if !c.stream && w.SrvSock != nil {
+						for _, p := range []*vtx.Peer{pa, pb} {
+							w.SrvSock.WriteErr, w.SrvSock.WriteErrOnce = syscall.ENOBUFS, true
+							_, _ = p.Sock.WriteTo([]byte("lost-to-a-transient-write-error"), relay)
+							synctest.Wait()
+						}
+						w.SrvSock.WriteErr = nil
+					}
+					w.Collect()
+					r.Class(fmt.Sprintf("stream=%v transient-write-error-injected", c.stream))
+
+					continue
+				}
 				final := l < 0
 				if final {
 					l = 10
@@ -226,7 +250,7 @@ func run(t *testing.T, r *rep.Report, c cfg, lens []int) {
 						// a 10-byte datagram is never "too large to be relayed whole": after whatever came before,
 						// relaying must still work on every path
 						r.Violate(rep.Violation{Oracle: "c05", Signature: "small-datagram-not-relayed:" + path,
-							Detail: fmt.Sprintf("%s: after lengths %d..%d a 10-byte datagram was delivered %d times on %s", c, lens[0], lens[len(lens)-2], n, path)})
+							Detail: fmt.Sprintf("%s: after lengths %d..%d a 10-byte datagram was delivered %d times on %s", c, lens[0], lens[len(lens)-3], n, path)})
 					}
 					if n < copies && l < min(effMTU(c.mtu), 1600)-100 {
 						// "too large to be relayed whole" is the only licence to drop: nothing this far below every buffer is
